@@ -114,6 +114,16 @@ def local_name(qname: str) -> str:
 
 
 NCNAME_PUNCTUATION = {"\u00b7", "\u0387", ".", "-", "_"}
+# The XML NameStartChar ranges, they include characters that are no letters
+NCNAME_START_EXTRA = re.compile(
+    "[\u00c0-\u00d6\u00d8-\u00f6\u00f8-\u02ff\u0370-\u037d\u037f-\u1fff"
+    "\u200c\u200d\u2070-\u218f\u2c00-\u2fef\u3001-\ud7ff\uf900-\ufdcf"
+    "\ufdf0-\ufffd\U00010000-\U000effff]"
+)
+# The XML NameChar additions: combining marks and the two tie characters
+NCNAME_CHAR_EXTRA = re.compile(
+    "[\u0300-\u036f\u203f\u2040]|" + NCNAME_START_EXTRA.pattern
+)
 
 
 def is_ncname(name: str | None) -> bool:
@@ -122,11 +132,16 @@ def is_ncname(name: str | None) -> bool:
         return False
 
     char = name[0]
-    if not char.isalpha() and char != "_":
+    if not char.isalpha() and char != "_" and not NCNAME_START_EXTRA.match(char):
         return False
 
     for char in name[1:]:
-        if char.isalpha() or char.isdigit() or char in NCNAME_PUNCTUATION:
+        if (
+            char.isalpha()
+            or char.isdigit()
+            or char in NCNAME_PUNCTUATION
+            or NCNAME_CHAR_EXTRA.match(char)
+        ):
             continue
 
         return False
